@@ -47,6 +47,8 @@ def gen_cases(ctx):
         if "transport" in d:
             cfg = c14.from_json({"op": "select", "cfg": d.get("cfg"), "lv": 0, "v6": False})["cfg"]
             add(bytes.fromhex(d.get("secret", "")), False, d["lv"], cfg, d["v6"], d["transport"], d["params"], "replay")
+            if d.get("dual"):
+                cases[-1]["dual"] = d["dual"]
     # the two checked-in subnet files, as the suite uses them
     w9, w1 = 9, 1
     shipped = {"groups": [{"w": w9, "nets": [c14.net(4, 0xC07ABE00, 24), c14.net(6, 0x200148A8687F0001 << 64, 64)], "rp": True},
@@ -85,6 +87,31 @@ def gen_cases(ctx):
             add(rand_secret(rng), False, lv, nil_cfg, bool(i & 1), "min", {"kind": "absent", "rand": None, "prefix": None},
                 "legacy-nil-group")
     simple = {"groups": [{"w": 1, "nets": [c14.net(4, 0x0A000000, 8), c14.net(6, 0xFD << 120, 8)], "rp": True}]}
+    # 5. ONE dual-stack message through the real parseRegMessage (v4 and v6 support, both enable flags, IPv4/IPv6
+    #    registrant): every registration it yields is compared with the client and the model for its family
+    both = {"v4sup": True, "v6sup": True, "en4": True, "en6": True, "client6": False}
+    duals = []
+    for tr in ("obfs4", "min", "prefix", "dtls"):
+        for lv in ((4, 3, 0) if quick else (4, 3, 2, 1, 0)):
+            if tr == "prefix" and lv < 3:
+                continue
+            p = {"kind": "explicit", "rand": True, "prefix": 2 if tr == "prefix" else None} if lv >= 3 else \
+                {"kind": "absent", "rand": None, "prefix": None}
+            duals.append((tr, lv, p, dict(both)))
+    duals.append(("obfs4", 4, {"kind": "default", "rand": None, "prefix": None}, dict(both, en4=False)))
+    duals.append(("obfs4", 4, {"kind": "default", "rand": None, "prefix": None}, dict(both, client6=True)))
+    duals.append(("min", 4, {"kind": "default", "rand": None, "prefix": None}, dict(both, en6=False)))
+    if not quick:
+        for i in range(40):
+            tr = rng.choice(["obfs4", "obfs4", "min", "prefix", "dtls"])
+            lv = rng.choice([0, 1, 2, 3, 4, 4])
+            duals.append((tr, lv, rand_params(rng, tr), {"v4sup": rng.random() < 0.9, "v6sup": rng.random() < 0.9,
+                                                        "en4": rng.random() < 0.9, "en6": rng.random() < 0.9,
+                                                        "client6": rng.random() < 0.2}))
+    for tr, lv, p, d in duals:
+        cg = lv >= 4
+        add(b"" if cg else rand_secret(rng), cg, lv, shipped if rng.random() < 0.5 else simple, False, tr, p, "dual")
+        cases[-1]["dual"] = d
     # 4. port-range boundaries: secrets whose first port draw is the largest value of the range (port max-1),
     #    searched with the Python HKDF, so that a range changed on one side is exhibited and not only a shifted minimum
     import hashlib
@@ -116,8 +143,11 @@ def gen_cases(ctx):
 
 
 def to_json(c):
-    return {"secret": c["secret"].hex(), "client_gen": c["client_gen"], "lv": c["lv"], "cfg": c14.cfg_json(c["cfg"]),
-            "v6": c["v6"], "transport": c["transport"], "params": c["params"]}
+    d = {"secret": c["secret"].hex(), "client_gen": c["client_gen"], "lv": c["lv"], "cfg": c14.cfg_json(c["cfg"]),
+         "v6": c["v6"], "transport": c["transport"], "params": c["params"]}
+    if c.get("dual"):
+        d["dual"] = c["dual"]
+    return d
 
 
 def brief(c, r=None):
@@ -245,6 +275,46 @@ def oracle(ctx, c, r):
     return "agree"
 
 
+def dual_check(ctx, c, r, terms, tcases):
+    """a dual-stack message through parseRegMessage: every registration it yields must be the single-family derivation
+    (station), must agree with the client, and is handed to the model as a case of its own"""
+    tw = r.get("twin")
+    regs = r.get("dual_regs") or []
+    kind = "dual/%s/%d-regs" % (c["transport"], len(regs)) if not r.get("dual_err") else "dual/%s/message-rejected" % c["transport"]
+    ctx.cov["histogram"][kind] = ctx.cov["histogram"].get(kind, 0) + 1
+    if tw is not None:
+        c6 = dict(c, v6=True, client_gen=False, tag="dual-twin")
+        c6.pop("dual", None)
+        oracle(ctx, c6, tw)
+        terms.append(g_case(c6, tw))
+        tcases.append((c6, tw))
+    for st, v6 in zip(regs, r.get("dual_v6") or []):
+        single = tw if v6 else r
+        if single is None:
+            continue
+        ref_st, cl = single["station"], r["client"]
+        fam = "v6" if v6 else "v4"
+        cf = dict(c, v6=v6, tag="dual-reg")
+        cf["dual_reg_family"] = fam
+        for k in ("ip", "port", "tag", "priv", "pub", "node"):
+            if ref_st["out"] == "ok" and st[k] != ref_st[k]:
+                ctx.fail("dual-stack/%s/%s" % (c["transport"], k), "the %s registration of a dual-stack message (through "
+                         "parseRegMessage) has %s=%s, the same secret derived for that family alone gives %s"
+                         % (fam, k, st[k], ref_st[k]), brief(c, r))
+                break
+        if c["transport"] == "obfs4" and cl["priv"] and (cl["priv"], cl["pub"], cl["node"]) != (st["priv"], st["pub"], st["node"]):
+            ctx.fail("dual-stack/obfs4-keys/%s" % fam, "obfs4 node keys of the %s registration of a dual-stack message differ from the "
+                     "client's: station priv %s node %s, client priv %s node %s" % (fam, st["priv"], st["node"], cl["priv"], cl["node"]),
+                     brief(c, r))
+        if c["transport"] in ("min", "prefix") and cl["tag"] and cl["tag"] != st["tag"]:
+            ctx.fail("dual-stack/tag/%s" % fam, "connection tag of the %s registration of a dual-stack message differs from the client's" % fam,
+                     brief(c, r))
+        # the model: the registration of family f of a message is station(secret, f), nothing else
+        rr = dict(single, station=dict(single["station"], **{k: st[k] for k in ("out", "ip", "port", "tag", "priv", "pub", "node")}))
+        terms.append(g_case(cf, rr))
+        tcases.append((cf, rr))
+
+
 # ---------------------------------------------------------------- run
 def run(ctx):
     ctx.assumptions += [
@@ -278,8 +348,12 @@ def run(ctx):
         ctx.broken("driver", "Go driver did not produce results (rc=%s): %s" % (rc, out[-1500:]))
         return
     terms = []
+    tcases = []
     for c, r in zip(cases, res):
+        if c.get("dual"):
+            dual_check(ctx, c, r, terms, tcases)
         verdict = oracle(ctx, c, r)
+        tcases.append((c, r))
         ctx.count((to_json(c), r["secret"]), nontrivial=True, kind="%s/lv%d/%s" % (c["transport"], c["lv"], verdict))
         tk = "tag:%s/%s" % (c.get("tag"), verdict.split("/")[0])
         ctx.cov["histogram"][tk] = ctx.cov["histogram"].get(tk, 0) + 1
@@ -291,13 +365,14 @@ def run(ctx):
                     "client": {k: r["client"][k] for k in ("ip", "port", "tag", "seed", "wire")}})
     need = ["%s/lv%d/agree" % (t, lv) for t in ("min", "obfs4", "dtls") for lv in range(5)]
     need += ["prefix/lv3/agree", "prefix/lv4/agree", "prefix/lv1/station-err", "min/lv0/legacy-divergence/varint-overflow",
-             "tag:varint-overflow/agree", "tag:legacy-nil-group/agree", "tag:port-top/agree"]
+             "tag:varint-overflow/agree", "tag:legacy-nil-group/agree", "tag:port-top/agree", "dual/obfs4/2-regs",
+             "dual/min/2-regs", "dual/prefix/2-regs", "dual/dtls/2-regs", "dual/obfs4/1-regs"]
     need += ["params:%s/%s" % (t, k) for t in TRS for k in ("absent", "default", "explicit")]
     ctx.require_kinds(need)
     mm = ctx.coq_mismatches("der", HEADER, terms, "chk", shard=max(4, (len(terms) + 15) // 16), need_vo=["C01/Run.vo"])
     if mm:
         ctx.cov["mismatches"] += len(mm)
-        c, r = cases[mm[0]], res[mm[0]]
+        c, r = tcases[mm[0]]
         shown = ctx.coq_show("mm", HEADER, "show %s" % g_case(c, r))
         flags = re.findall(r"\b(true|false)\b", shown)[:4]
         parts = [n for n, f in zip(("station-key-schedule", "station-derivation", "client-key-schedule", "client-derivation"), flags)
